@@ -39,6 +39,7 @@ class Model:
         self.src = src.ravel().astype(np.int64)
         self.mult = mult.ravel().astype(np.int64)
         fx, fy, fz = (np.asarray(a, dtype=np.int64).ravel() for a in (fx, fy, fz))
+        self.fx2, self.fy2 = fx * fx, fy * fy
         self.kp2 = fx * fx + fy * fy
         self.kz2 = fz * fz
         self.k2 = self.kp2 + self.kz2
@@ -190,6 +191,7 @@ def kmu_reference(model, values, kedges_sq, muedges_sq, poles, kunit, scales=Non
     ma = np.where(dc, 1, ma)
     mb = np.where(dc, nm, mb)
     r = bin_bounds(ka, kb, ma, mb, model.mult, nk, nm)
+    r.ka, r.kb, r.nk = ka, kb, nk
     v = np.asarray(values, dtype=np.float64).ravel()[model.src]
     av = np.abs(v) if scales is None else np.asarray(scales, dtype=np.float64).ravel()[model.src]
     w = model.mult.astype(np.float64)
@@ -217,6 +219,59 @@ def kmu_reference(model, values, kedges_sq, muedges_sq, poles, kunit, scales=Non
     return r
 
 
+def k_ties_consistent(model, r, totals):
+    """Are the observed per-k-bin mode totals reachable when every rounding tie is resolved *consistently*?
+
+    The interval test (lo <= count <= hi) lets every tied mode choose its side on its own.  Modes whose wave vectors are
+    permutations / sign flips of one another with at most two non-zero components have the same |k|^2 in any floating-point
+    evaluation of kx^2+ky^2+kz^2 (addition commutes), so whatever side of an edge is right for one of them is right for all:
+    such an orbit is all-or-nothing.  Tied modes with three non-zero components stay free individually.
+    -> (True, '') or (False, detail).  Undecidable layouts (a mode tied with two edges) -> True."""
+    ka, kb, nk = r.ka, r.kb, r.nk
+    T = [int(x) for x in np.asarray(totals).ravel()]
+    if len(T) != nk:
+        return True, ''
+    tie = ka != kb
+    if not tie.any():
+        return True, ''
+    if np.any((kb - ka)[tie] != 1):
+        return True, ''
+    D = np.zeros(nk, dtype=np.int64)
+    d = ~tie & (ka >= 1) & (ka <= nk)
+    np.add.at(D, ka[d] - 1, model.mult[d])
+    units = [dict() for _ in range(nk + 1)]  # per edge: orbit key -> weight
+    free = [[] for _ in range(nk + 1)]
+    for idx in np.flatnonzero(tie):
+        e = int(ka[idx])
+        if not 0 <= e <= nk:
+            return True, ''
+        comp = sorted((int(model.fx2[idx]), int(model.fy2[idx]), int(model.kz2[idx])))
+        w = int(model.mult[idx])
+        if comp[0] == 0:  # at most two non-zero components
+            units[e][tuple(comp)] = units[e].get(tuple(comp), 0) + w
+        else:
+            free[e].append(w)
+    S, tot = [], []
+    for e in range(nk + 1):
+        sums = {0}
+        for w in list(units[e].values()) + free[e]:
+            sums |= {x + w for x in sums}
+        S.append(sums)
+        tot.append(sum(units[e].values()) + sum(free[e]))
+    for up0 in sorted(S[0]):
+        cur, ok = up0, True
+        for b in range(nk):
+            nxt = int(D[b]) + cur + tot[b + 1] - T[b]
+            if nxt not in S[b + 1]:
+                ok = False
+                break
+            cur = nxt
+        if ok:
+            return True, ''
+    desc = '; '.join('edge %d: orbits %s free %s' % (e, sorted(units[e].items()), free[e]) for e in range(nk + 1) if units[e] or free[e])
+    return False, 'per-k-bin totals %s cannot be produced by resolving each tie orbit as a whole (definite members %s; tied: %s)' % (T, D.tolist(), desc)
+
+
 def kppi_reference(model, values, kedges_sq, piedges_sq):
     """Expected (k_perp, k_par) table: k_perp^2 against kedges_sq, kz^2 against piedges_sq.
     A mode on an outer edge is ambiguous (in or out), except at the lower end of the pi range:
@@ -242,7 +297,7 @@ def restrict(model, keep, name):
     """Sub-model containing only the entries where keep is True (root-cause attribution)."""
     m = Model.__new__(Model)
     m.name, m.n = name, model.n
-    for f in ('src', 'mult', 'kp2', 'kz2', 'k2'):
+    for f in ('src', 'mult', 'kp2', 'kz2', 'k2', 'fx2', 'fy2'):
         setattr(m, f, getattr(model, f)[keep])
     return m
 
